@@ -8,7 +8,7 @@ from ..rateprobe import exc_detail
 from ..util import KIND, MODEL_NAMES, models
 
 PROPERTY = "C20"
-TECHNIQUE = "runtime monitoring: constructor/deepcopy contracts + lock-step history monitor (restored vs unrestored league)"
+TECHNIQUE = "runtime monitoring: constructor/deepcopy contracts + lock-step history monitor (restored vs unrestored league, incl. anchor leagues with sub-ulp updates); id uniqueness across re-seeding and os.fork"
 LEVEL = "exploration"
 RULE = ("Contracts on model.rating(mu, sigma, name), create_rating([mu, sigma], name) and copy.deepcopy (of a rating, of "
         "nested team lists, of a list containing the same rating twice): values exactly as given (0, 0.0, -0.0, negatives, "
